@@ -132,6 +132,11 @@ func ProcessMongoLogFile(fileReader FileReader, filePath string, outWriter io.Wr
 
 	ext := fileReader.GetExtension(filePath)
 	if ext == ".gz" {
+		// gzip checks its checksum only at the end of the stream: read the archive through
+		// once, so that a corrupt one is reported before any line derived from it is written
+		if err := verifyGzip(fileReader, filePath); err != nil {
+			return err
+		}
 		gzReader, err := gzip.NewReader(file)
 		if err != nil {
 			return fmt.Errorf("failed to create gzip reader: %w", err)
@@ -140,6 +145,24 @@ func ProcessMongoLogFile(fileReader FileReader, filePath string, outWriter io.Wr
 		return processMongoLogStream(gzReader, outWriter, bar)
 	}
 	return processMongoLogStream(file, outWriter, bar)
+}
+
+// verifyGzip inflates the whole archive to nowhere and reports the first error.
+func verifyGzip(fileReader FileReader, filePath string) error {
+	file, err := fileReader.Open(filePath)
+	if err != nil {
+		return err
+	}
+	defer file.Close()
+	gzReader, err := gzip.NewReader(file)
+	if err != nil {
+		return fmt.Errorf("failed to create gzip reader: %w", err)
+	}
+	defer gzReader.Close()
+	if _, err := io.Copy(io.Discard, gzReader); err != nil {
+		return fmt.Errorf("corrupt gzip archive: %w", err)
+	}
+	return nil
 }
 
 // ProcessMongoLogFileFromReader reads from any io.Reader (such as stdin), redacts each line, and writes the result.
